@@ -402,9 +402,6 @@ func (m *monC12) OnStep(r *Runner, st *Step) {
 		switch {
 		case len(st.Slashes) > 0 && grow.Cmp(revalBound) <= 0:
 			cls = "entitlement-inflated-by-slash"
-		case fullySlashedAsset(st.Pre) || fullySlashedAsset(post):
-			// precondition of the open finding: an asset with a staked total but no validator shares at all
-			cls = "entitlement-inflated:fully-slashed-asset"
 		case grow.Cmp(revalBound) <= 0:
 			cls = "entitlement-inflated:token-rounding"
 		case grow.Cmp(radd(revalBound, getR(fracBound, d))) <= 0:
